@@ -34,7 +34,7 @@ RULE = (
     "distinct interleavings (decision sequences) per scenario; non-trivial = a schedule with at least one context "
     "switch between two operations on the shared lookup."
 )
-RULE += ' added since: scenario modify-first, quiescence oracle (after all threads finish one more get must return a template of the newest source), cached defs with two cache types recorded by the backend, module-namespace race, render templates under /sub with relative URIs and root-level decoys. three free-running renders racing for the first use of a cached def / page / block with the Beaker backend. a modification of the referred-to template injected at each get_template call made during a render (inherit / include / namespace).'
+RULE += ' added since: scenario modify-first, quiescence oracle (after all threads finish one more get must return a template of the newest source), cached defs with two cache types recorded by the backend, module-namespace race, render templates under /sub with relative URIs and root-level decoys. three free-running renders racing for the first use of a cached def / page / block with the Beaker backend. a modification of the referred-to template injected at each get_template call made during a render (inherit / include / namespace). import= names read in the body and in a nested def of the concurrently rendered template.'
 ASSUMPTIONS = [
     "single bytecodes / dict operations are atomic (GIL builds); interleavings inside C-level operations are not explored",
     "file modifications are made atomic with respect to the scheduler (content and mtime change together)",
@@ -377,11 +377,15 @@ RENDER_TEMPLATES = {
     "/ns.html": '<%def name="nd(a)">ROOT-DECOY-ND(${a})</%def>',
     "/sub/inc.html": "{inc:${who}}",
     "/sub/ns.html": '<%def name="nd(a)">ND(${a}|${who})</%def>',
-    "/sub/main.html": '<%inherit file="/base.html"/><%namespace name="n" file="ns.html"/>'
-                  'M(${who})<%include file="inc.html"/>${n.nd(who)}${cd(who)}${sh()}\n'
+    # names brought in with import= are bound to the importing render's own context - also when a nested def reads
+    # them later in the render
+    "/sub/imp.html": '<%def name="imported(a)">IMP(${a}|${who})</%def><%def name="imp2()">I2(${who})</%def>',
+    "/sub/main.html": '<%inherit file="/base.html"/><%namespace name="n" file="ns.html"/><%namespace file="imp.html" import="imported, imp2"/>'
+                  'M(${who})<%include file="inc.html"/>${n.nd(who)}${imported(who)}${cd(who)}${sh()}${outer2()}\n'
                   '% for i in range(2):\n${loop.index}${who}\n% endfor\n'
                   '<%def name="cd(a)" cached="True" cache_key="k-${a}" cache_timeout="30" cache_type="tA">CD(${a})</%def>'
-                  '<%def name="sh()" cached="True" cache_type="tB">SH</%def>',
+                  '<%def name="sh()" cached="True" cache_type="tB">SH</%def>'
+                  '<%def name="outer2()">O2[<%def name="in2()">${imported(who)}${imp2()}</%def>${who}${in2()}${in2()}]</%def>',
 }
 
 
